@@ -149,7 +149,7 @@ fn api_ids(s: SuiteId) -> Vec<(String, Option<Vec<u8>>)> {
 }
 
 /// generator sets: prefix consistency, duplicate-freeness, disjointness across (expander, api_id)
-fn generators<X: Sx>(ctx: &Ctx, n: usize, which: usize) {
+fn generators<X: Sx, Y: Sx>(ctx: &Ctx, n: usize, which: usize) {
     let (an, api) = api_ids(X::ID)[which].clone();
     let origin = format!("{}/{}", name::<X>(), an);
     let g = ctx.call("Generators::create", &format!("{origin}/n{n}"), Some(n as u64 + 8), || Ok::<_, ()>(Generators::create::<X::CS>(n, api.as_deref()))).value;
@@ -201,6 +201,29 @@ fn generators<X: Sx>(ctx: &Ctx, n: usize, which: usize) {
         match gk {
             Some(gk) if gk.values.len() == k && gk.values[..] == g.values[..k] && gk.g1_base_point == g.g1_base_point => {}
             _ => ctx.violation("C11:generators-depend-on-count", json!({"origin":origin,"k":k,"n":n})),
+        }
+    }
+    // the other expander with the very same api id octets, on this same thread, before and after: the two
+    // sets are disjoint and what this suite returns does not depend on what was asked earlier
+    for k in [n.min(4), n] {
+        let case = format!("{origin}/other-expander-same-api-id/k{k}");
+        ctx.distinct(&case);
+        let Some(gy) = ctx.call("Generators::create", &case, Some(k as u64 + 8), || Ok::<_, ()>(Generators::create::<Y::CS>(k, api.as_deref()))).value else {
+            ctx.violation("C11:generators-create-failed", json!({"origin":case}));
+            continue;
+        };
+        for (i, p) in gy.values.iter().enumerate() {
+            if let Some(j) = g.values.iter().position(|q| q == p) {
+                ctx.violation("C11:generator-shared-across-sets", json!({"first":format!("{origin}/gen{j}"),"again":format!("{}/{}/gen{i}", name::<Y>(), an),"same_thread":true}));
+                break;
+            }
+        }
+        if gy.g1_base_point == g.g1_base_point {
+            ctx.violation("C11:base-point-shared-across-suites", json!({"origin":case}));
+        }
+        let again = ctx.call("Generators::create", &case, Some(n as u64 + 8), || Ok::<_, ()>(Generators::create::<X::CS>(n, api.as_deref()))).value;
+        if again.as_ref().map(|a| a.values[..] == g.values[..]) != Some(true) {
+            ctx.violation("C11:generators-depend-on-history", json!({"origin":case}));
         }
     }
     if which == 6 {
@@ -274,8 +297,8 @@ pub fn scenarios(ctx: &Ctx) -> Vec<Scenario> {
     v.push(scenario("prepare_parameters/shake", |c| prepare_params::<Shake>(c, 7001)));
     let n = ctx.t(256usize, 1024usize);
     for which in 0..13usize {
-        v.push(scenario(format!("generators/sha/{which}"), move |c| generators::<Sha>(c, n, which)));
-        v.push(scenario(format!("generators/shake/{which}"), move |c| generators::<Shake>(c, n, which)));
+        v.push(scenario(format!("generators/sha/{which}"), move |c| generators::<Sha, Shake>(c, n, which)));
+        v.push(scenario(format!("generators/shake/{which}"), move |c| generators::<Shake, Sha>(c, n, which)));
     }
     v
 }
